@@ -1,10 +1,37 @@
 import KvarnModel.Drv.Util
 import KvarnModel.QueryIter
+import KvarnModel.QuerySplit
 import KvarnModel.UrlCrawl
 namespace Drv.C02
 open Wire Drv UrlCrawl
 
+/-- the four names the harness asks for: `a`, `b`, the empty name, `é` -/
+def queryNames : List Bytes := [[97], [98], [], [0xc3, 0xa9]]
+
+def showOpt (o : Option QuerySplit.Pair) : String :=
+  match o with
+  | none => "none"
+  | some p => hexOfBytes p.2
+
+/-- every accessor of `Query` for one name, in the harness's format -/
+def queryField (ps : List QuerySplit.Pair) (name : Bytes) : Option String :=
+  match QuerySplit.getAll ps name with
+  | none => none
+  | some all =>
+    let get := if all.length = 1 then all.head? else none
+    let vals := fun (l : List QuerySplit.Pair) => ";".intercalate (l.map fun p => hexOfBytes p.2)
+    some s!"{hexOfBytes name}:{showOpt get}:{showOpt all.head?}:{showOpt all.getLast?}:[{vals all}]:[{vals all.reverse}]"
+
 def handle : List String → Option String
+  -- query <hex of the query string | -> : `parse::query`, then get / get_first / get_last / get_all (both directions)
+  | ["query", h] => do
+    let q ← if h = "-" then some [] else bytesOfHex h
+    pure (match QuerySplit.query q with
+      | none => "panic"
+      | some ps =>
+        match queryNames.mapM (queryField ps) with
+        | none => "panic"
+        | some fs => " ".intercalate fs)
   -- qiter <pairs before> <pairs of the name> <pairs after> [f,b,…] : QueryPairIter driven from both ends
   | ["qiter", n0, na, nb, ds] => do
     let n0 ← n0.toNat?; let na ← na.toNat?; let nb ← nb.toNat?
